@@ -3,6 +3,7 @@ CONSTANTS
  Lengths <- MCLengths
  MinSamples = 1
 INVARIANT CoarseSpansImage
+INVARIANT CoversEveryArrayPixel
 INVARIANT EndsIncluded
 INVARIANT ReachesImageEdge
 INVARIANT Spacing
